@@ -27,6 +27,18 @@ CHECKS = {
         ref="5/C06"),
 }
 
+CHECKS["C03"] = dict(
+    text="Same construction over CFG-rich shapes (every terminator kind, callers/callees/function layouts) and patches ending in jmp/jcc/call/ret/labels; TLC computes the per-instruction control flow of the edited listing (fallthrough, branch/call targets by label position, return sites of calls per function) and judges the observed CFG flattened to instructions, buried terminators and dead endpoints.",
+    note="As C01. Clauses are split (Fallthrough / BranchCall / Returns / NoBuriedTerminator / EndpointsAlive) so that the open findings KF-C03-1..7 (each excused only element-wise under a narrow signature, spec/G1Findings.tla) leave the rest armed. Domain: input CFG equals the listing's control flow; no instruction falls into data.",
+    technique="TLA+ listing-refinement spec with per-instruction CFG semantics; TLC case generation + trace validation",
+    ref="5/C03")
+CHECKS["C05"] = dict(
+    category="fault_enumeration",
+    text="Every generated case is executed once normally and once per patch invocation k with an exception injected into the k-th patch callback (plus one non-assembling patch); after success or failure the harness observes the whole IR (aux-data closure scan, addresses, protobuf round trip, identity of ir.cfg) and TLC judges closure, well-formedness, zero-sized-block justification, serializability and the failure clauses.",
+    note="As C01; the protobuf round trip is performed by the harness and compared by canonical hash. Fault points = patch callbacks (the property's quantifier).",
+    technique="TLA+ trace validation of fault-injected executions generated from the TLC-explored shape space",
+    ref="5/C05")
+
 PENDING = {}
 
 
